@@ -509,3 +509,97 @@ Proof. reflexivity. Qed.
 Example ex_tcp : tcp_custom ["tcp-request"] [(0%N, "  tcp-request content reject")] (Some " option tcplog") = []
   /\ tcp_custom ["tcp-request"] [] (Some " tcp-request content reject") = [" tcp-request content reject"].
 Proof. split; reflexivity. Qed.
+
+(* ------------------------------------------------------------------ *)
+(* what is written, and how HAProxy reads it *)
+
+Lemma is_cr_space : forall c, is_cr c = true -> is_space c = true.
+Proof.
+  intros c H. unfold is_cr in H. unfold is_space. apply N.eqb_eq in H. rewrite H. reflexivity.
+Qed.
+
+Lemma is_sptab_space : forall c, is_sptab c = true -> is_space c = true.
+Proof.
+  intros c H. unfold is_sptab in H. unfold is_space. apply orb_true_iff in H as [H|H];
+    apply N.eqb_eq in H; rewrite H; reflexivity.
+Qed.
+
+Lemma take_sptab_take_word : forall s k,
+  take_sptab (cut_cr s) = k -> no_space k = true -> take_word s = k.
+Proof.
+  induction s as [|c r IH]; cbn; intros k H Hk; [assumption|].
+  destruct (is_cr c) eqn:Ecr.
+  - cbn in H. subst k. now rewrite (is_cr_space _ Ecr).
+  - cbn in H. destruct (is_sptab c) eqn:Est.
+    + subst k. now rewrite (is_sptab_space _ Est).
+    + subst k. cbn in Hk. apply andb_true_iff in Hk as (Hc & Hk'). apply negb_true_iff in Hc.
+      rewrite Hc. f_equal. now apply IH.
+Qed.
+
+(* the first word HAProxy reads on a line, when it is a blank-free non-empty word, is the
+   first token the filter saw *)
+Lemma haproxy_word_first_token : forall l k,
+  haproxy_word l = k -> k <> EmptyString -> no_space k = true -> first_token l = k.
+Proof.
+  unfold haproxy_word, first_token.
+  induction l as [|c r IH]; cbn; intros k H Hne Hk; [congruence|].
+  destruct (is_cr c) eqn:Ecr.
+  - cbn in H. congruence.
+  - cbn in H. destruct (is_sptab c) eqn:Est.
+    + rewrite (is_sptab_space _ Est). now apply IH.
+    + destruct (is_space c) eqn:Esp.
+      * (* \v \f \n in front: the word HAProxy reads starts with it, it is not blank-free *)
+        cbn in H. rewrite Est in H. subst k. cbn in Hk. rewrite Esp in Hk. discriminate.
+      * apply (take_sptab_take_word (String c r)); [|assumption].
+        cbn. now rewrite Ecr.
+Qed.
+
+Lemma LF_NL : LF = NL.
+Proof. reflexivity. Qed.
+
+Lemma no_nl_indent : forall l, no_nl l = true -> no_nl ("    " ++ l) = true.
+Proof. intros l H. cbn. exact H. Qed.
+
+Lemma written_lines : forall ls, (forall l, In l ls -> no_nl l = true) ->
+  split_nl (written ls) = (map (fun l : string => ("    " ++ l)%string) ls ++ [EmptyString])%list.
+Proof.
+  induction ls as [|l r IH]; intros H; [reflexivity|].
+  cbn [written map]. unfold write_line. rewrite LF_NL.
+  replace (("    " ++ l ++ NL) ++ written r) with (("    " ++ l) ++ NL ++ written r)
+    by (now rewrite !app_assoc_s).
+  rewrite split_nl_app, split_nl_single by (apply no_nl_indent, H; now left).
+  rewrite IH by (intros x Hx; apply H; now right). reflexivity.
+Qed.
+
+Lemma first_token_indent : forall l, first_token ("    " ++ l) = first_token l.
+Proof. intros l. unfold first_token. now rewrite skip_spaces_app. Qed.
+
+Lemma haproxy_word_indent : forall l, haproxy_word ("    " ++ l) = haproxy_word l.
+Proof. reflexivity. Qed.
+
+(* C19 on the written file (write = identity): cut at LF as HAProxy does, no line of the
+   block written for an emitted snippet starts with a listed keyword, neither for the
+   filter's reading of blanks nor for HAProxy's (space, tab, CR ends the statement) *)
+Lemma written_safe : forall kws v ls, custom_config kws v = Some ls ->
+  forall line, In line (split_nl (written ls)) ->
+  forall k, In k kws -> k <> EmptyString -> no_space k = true ->
+    first_token line <> k /\ haproxy_word line <> k.
+Proof.
+  intros kws v ls Hc line Hin k Hk Hne Hns.
+  destruct (emitted_safe _ _ _ Hc) as (Hls & _ & Hsafe).
+  rewrite written_lines in Hin by (intros l Hl; subst ls; eapply line_to_slice_lines; eauto).
+  assert (Hft : first_token line <> k).
+  { apply in_app_or in Hin as [Hin|[<-|[]]].
+    - apply in_map_iff in Hin as (l & <- & Hl). rewrite first_token_indent.
+      destruct (Hsafe k Hk Hne) as (_ & H). now apply H.
+    - cbn. congruence. }
+  split; [assumption|]. intros Hw. apply Hft. now apply haproxy_word_first_token.
+Qed.
+
+Example ex_written :
+  written ["  acl a path /"; "  deny"] = "      acl a path /" ++ LF ++ "      deny" ++ LF.
+Proof. reflexivity. Qed.
+
+Example ex_haproxy_word_cr :
+  haproxy_word ("    acl is_root path /" ++ String (ascii_of_N 13) "use-server s1") = "acl".
+Proof. reflexivity. Qed.
